@@ -197,7 +197,11 @@ func (g *genState) genOps(t *rapid.T, cur *Node, maxN int) []KV {
 			kv.Op = OpDel
 		case 2:
 			kv.Op = OpMerge
-			kv.V = append([]byte(fmt.Sprintf("m%d", g.batchNo)), rapid.SliceOfN(rapid.ByteRange('a', 'c'), 0, 2).Draw(t, "mt")...)
+			if chance(t, "keepoperand", 15) {
+				kv.V = []byte(KeepOperand)
+			} else {
+				kv.V = append([]byte(fmt.Sprintf("m%d", g.batchNo)), rapid.SliceOfN(rapid.ByteRange('a', 'c'), 0, 2).Draw(t, "mt")...)
+			}
 		}
 		if g.spec.Alloc && chance(t, "alloc", 40) {
 			kv.Alloc = true
